@@ -45,6 +45,8 @@ type c11op struct {
 	gotExp     time.Time
 	rng        map[int]int // Range: key -> value
 	ignored    bool
+	missWith    int // Get: value handed out together with ok == false
+	missWithExp time.Time
 }
 
 type c11sys struct {
@@ -79,6 +81,9 @@ func (s *c11sys) do(th int, name string) {
 		v, e, ok := s.c.Get(c11keys[o.key])
 		if ok {
 			o.got, o.gotExp = v, e
+		} else if v != 0 || !e.IsZero() {
+			// "returns nothing": the in-tree callers look at the value, not at ok
+			o.missWith, o.missWithExp = v, e
 		}
 		s.ops = append(s.ops, o)
 	case "storeA0":
@@ -270,6 +275,9 @@ func c11Scenario(name string, progs [][][]string, d int, prefill bool) vr.Scenar
 		for _, o := range s.ops {
 			switch o.kind {
 			case "get":
+				if o.missWith != 0 || !o.missWithExp.IsZero() {
+					return V("get/value-with-miss", fmt.Sprintf("Get(key %d) reported a miss (ok == false) and handed out value %d / expiry %v all the same: a miss returns nothing", o.key, o.missWith, o.missWithExp))
+				}
 				if o.got != 0 {
 					if orc, why := judge(o, o.key, o.got, true); orc != "" {
 						return V("get/"+orc, why)
